@@ -124,6 +124,17 @@ Definition cl_cmps (P : list (float * float)) (c : float * float) (eps : float) 
                      (@r2_points F P R2classic, getf o 20, 1e-11); (@r2_points F P R2adjusted, getf o 21, 1e-11)]
       else if Nat.leb n 2 then [(1, getf o 18, 0); (1, getf o 20, 0); (1, getf o 21, 0)] else []).
 
+(* conditioning of 1 - rss/tss with respect to the one quantity that differs between NumPy's and numba's
+   evaluation by more than a relative rounding error: the mean of y.  With u = 4 ulp of max|y|, the sum
+   of squares about the mean moves by at most dts = sum (2 |y_i - mean| u + u^2); relative effect dts/tss.
+   None = ill-conditioned (the two evaluations of TSS need not even agree on `tss == 0`). *)
+Definition r2_cond (y : list float) : option float :=
+  let mean := @np_mean F y in
+  let u := 0x1p-50 * fold_left (fun acc v => fmax acc (PrimFloat.abs v)) y 0 in
+  let dts := fold_left (fun acc v => acc + (2 * PrimFloat.abs (v - mean) * u + u * u)) y 0 in
+  let tss := @np_sum F (map (fun v => (v - mean) * (v - mean)) y) in
+  if (4 * dts <? tss)%float then Some (4 * dts / tss) else None.
+
 Definition cl_holds (P : list (float * float)) (c : float * float) (eps : float) (fit : option (float * float))
            (yh_fit yh_c : list float) (o : list (option float)) : Z :=
   let x := @xs F P in let y := @ys F P in
@@ -153,8 +164,12 @@ Definition cl_holds (P : list (float * float)) (c : float * float) (eps : float)
     (3%Z, pred2 o 4 13 f_same && pred2 o 6 15 f_same && pred2 o 7 16 f_same && pred2 o 8 17 f_same
           && (if nn then pred2 o 3 12 f_same && pred2 o 5 14 f_same else true));
     (* linear_r2 (NumPy sums) vs metrics.r2 (numba sums) of the same line *)
-    (4%Z, pred2 o 0 9 (fun a b => f_close 1e-9 (1e-12 * (1 + PrimFloat.abs (1 - b))) a b)
-          && (if n3 then pred2 o 1 10 (fun a b => f_close 1e-9 (1e-12 * (1 + PrimFloat.abs (1 - b))) a b) else true));
+    (4%Z, match r2_cond y with
+          | None => true
+          | Some k =>
+              pred2 o 0 9 (fun a b => f_close 1e-9 ((1e-12 + k) * (1 + PrimFloat.abs (1 - b))) a b)
+              && (if n3 then pred2 o 1 10 (fun a b => f_close 1e-9 ((1e-12 + k) * (1 + PrimFloat.abs (1 - b)) * (fn - 1)) a b) else true)
+          end);
     (5%Z, pred1 o 0 le1 && (if n3 then pred1 o 1 le1 else true));
     (6%Z, pred1 o 4 (fun v => (0 <=? v) && (v <=? 2 + 1e-9))%float && pred1 o 6 ge0 && pred1 o 7 ge0 && pred1 o 8 ge0);
     (* best-fit R2: 1 for n <= 2; in [0,1]; adjusted = 1 - (1 - classic)(n-1)/(n-2); r2_points delegates *)
